@@ -31,6 +31,7 @@ type c06kb struct {
 	OnSync bool
 	Queue  string
 	Ns     string // namespace.nameSelector.matchNames: [Ns]
+	Name1  string // nameSelector.matchNames: [Name1]
 }
 
 type c06hook struct {
@@ -144,6 +145,16 @@ func c06run(c *vlib.Case, res *vlib.Result) {
 			hooks = append(hooks, &c06hook{Rel: rel, Kube: []c06kb{{Name: "k0", OnSync: true}, {Name: "k1", OnSync: true, Queue: "q1"}}, FailAt: []int{1}})
 		}
 	}
+	if c.Index%4 == 1 {
+		// catalogue: two bindings of one group that also name a queue: their Synchronizations are still one Group
+		// execution (in the main queue). The bindings select an object that is never created, so this execution is
+		// the only one the hook ever gets.
+		rel := "mp-group-in-named-queue"
+		if !used[rel] {
+			used[rel] = true
+			hooks = append(hooks, &c06hook{Rel: rel, Kube: []c06kb{{Name: "k0", Group: "g9", Queue: "q1", OnSync: true, Name1: "never-created"}, {Name: "k1", Group: "g9", Queue: "q1", OnSync: true, Name1: "never-created"}}})
+		}
+	}
 	listFails := false
 	if c.Index%4 == 3 {
 		// catalogue: the first list request of a hook's SECOND binding fails once (a transient API error): the
@@ -197,6 +208,9 @@ func c06run(c *vlib.Case, res *vlib.Result) {
 				}
 				if kb.Ns != "" {
 					d["namespace"] = m{"nameSelector": m{"matchNames": []any{kb.Ns}}}
+				}
+				if kb.Name1 != "" {
+					d["nameSelector"] = m{"matchNames": []any{kb.Name1}}
 				}
 				ks = append(ks, d)
 			}
@@ -430,6 +444,9 @@ func c06run(c *vlib.Case, res *vlib.Result) {
 		}
 		for g := range enabledGroups {
 			res.Count("group_synchronizations_expected", 1)
+			if h.Rel == "mp-group-in-named-queue" && groupOK[h.Rel+"|"+g] != 1 {
+				res.Violate("group-synchronization-not-shared", "hook %s: the two bindings of group %s (both with queue q1, nothing they select ever exists) got %d Group executions, they share one\n%s", h.Rel, g, groupOK[h.Rel+"|"+g], desc())
+			}
 			if groupOK[h.Rel+"|"+g] < 1 {
 				res.Violate("group-synchronization-missing", "hook %s group %s: no successful Group execution although a binding of the group has Synchronization enabled\n%s", h.Rel, g, desc())
 			}
